@@ -295,6 +295,27 @@ def engine_seq(pid, tier, evidence=True):
     if not evidence:
         shutil.rmtree(wd, ignore_errors=True)
         return dict(found=found, notes=notes, coverage={k: coverage[k] for k in ("states", "transitions", "tours", "histories", "events_judged", "events_relevant_to_property")})
+    # fault facet: a GetChildVersion during which a storage step fails must answer with an error or correctly
+    if pid in ("C01", "C08"):
+        fj = []
+        for i, (hist, lvl) in enumerate(((FAULT_HISTORIES[0][:4], "http"), (FAULT_HISTORIES[0][:6], "lib"), (FAULT_HISTORIES[1][:5], "http"))):
+            for argk in ("nil", "mid", "old", "latest", "rnd"):
+                fj.append({"id": f"gf{i}-{argk}", "mode": "sweep", "backend": "sqlite", "instances": "shared", "cfg": {"days": 14, "versions": 100},
+                           "seed": [{"op": o, "arg": ARGK_SYM[a]} for o, a in hist], "reqs": [{"op": "GetChildVersion", "argk": argk, "lvl": lvl}],
+                           "follow": [], "io_variants": "quick", "io_stride": 2, "max_rounds": 120})
+        wdf = workdir("gcvfault-" + pid)
+        ffiles, nfr, _pj = run_conc_jobs(binary, fj, wdf)
+        fviols, ftot = judge(ffiles, spec="TraceConc.tla")
+        for v in fviols:
+            if "C08f" not in v["names"] or len(found) >= 40:
+                continue
+            e = load_event(v["file"], v["line"])
+            found.append(dict(sig=dict(engine="gcvfault", resp=e["resps"][0]["kind"], sweep=e.get("info", {}).get("sweep")),
+                              what=f"{pid}: GetChildVersion {e['reqs'][0]} with fault {e.get('info')} answered {e['resps'][0]} although the child lookup failed / "
+                                   f"the stored chain is latest={e['seed']['l']} versions={[(x['vid'], x['parent']) for x in e['seed']['v']]}",
+                              replay=dict(engine="conc", predicate="C08f", round=e)))
+        coverage["fault_facet"] = dict(rounds_judged=ftot, sweep_jobs=len(fj))
+        shutil.rmtree(wdf, ignore_errors=True)
     # the repository's own tests as traces (hook build)
     tf, tcov = tests_facet(pid)
     found += tf
@@ -396,6 +417,21 @@ def engine_http(pid, tier):
         jobs += hj
         e = edges[len(edges) // 2]
         samples.append({"model_edge": {"req": e["req"], "resp": e["resp"]}})
+        if pid == "C14":
+            # payload sizes around actix's default extractor limits, and a refused upload of a never-seen client
+            # followed by requests whose library outcome is "no such client"
+            for b in ("inmemory", "sqlite"):
+                steps = [{"op": "AddVersion", "c": 1, "arg": {"sym": "nil"}, "size": 100}]
+                for sz in (262143, 262144, 262145, 1000000, 2097153):
+                    steps += [{"op": "AddVersion", "c": 1, "arg": {"sym": "latest"}, "size": sz}, {"op": "GetChildVersion", "c": 1, "arg": {"sym": "anc", "k": 1}},
+                              {"op": "AddSnapshot", "c": 1, "arg": {"sym": "latest"}, "size": sz}, {"op": "GetSnapshot", "c": 1}]
+                for hgc in ({"size": 0}, {"size": 20, "ct": "wrong"}, {"size": 20, "abort": True}):
+                    hg = dict({"route": "av", "method": "POST", "cid": "valid", "pid": "valid", "ct": "right", "size": 20, "chunks": 1, "abort": False, "cls": "no"}, **hgc)
+                    steps += [{"op": "Raw", "c": 3, "arg": {"sym": "nil"}, "hg": hg}, {"op": "AddSnapshot", "c": 3, "arg": {"sym": "rnd", "k": 2}},
+                              {"op": "GetSnapshot", "c": 3}, {"op": "GetChildVersion", "c": 3, "arg": {"sym": "nil"}}]
+                jobs.append({"id": f"c14x-{b}", "run": run0, "backend": b, "driver": "http", "cfg": {"days": 14, "versions": 100}, "nclients": 3,
+                             "steps": steps, "first_free": 1, "kind": "sizes", "twin": True})
+                run0 += 1
     # ---- allow-list model (C16, C20)
     if pid in ("C16", "C20"):
         edges, st, cfg = seqplan.allow_edges()
@@ -437,11 +473,11 @@ def engine_http(pid, tier):
             js = httpplan.big_jobs(rng, big, run0, "inmemory")
             run0 += len(js)
             jobs += js
-            if tier == "thorough":
-                js = httpplan.big_jobs(rng, big, run0, "sqlite", prefix="bigsq")
-                run0 += len(js)
-                jobs += js
-                ncases += len(big)
+            bigsq = big if tier == "thorough" else [c for c in big if c["size"] == httpplan.LIMIT and c["chunks"] == 1]
+            js = httpplan.big_jobs(rng, bigsq, run0, "sqlite", prefix="bigsq")
+            run0 += len(js)
+            jobs += js
+            ncases += len(bigsq)
         elif pid == "C16":
             for allow in ([], [1], [1, 2]):
                 js = httpplan.grammar_jobs(rng, cases, run0, ("inmemory", "sqlite"), prefix=f"gal{len(allow)}-", allow=allow)
@@ -522,8 +558,11 @@ def urg_grid(rng, tier):
 
     def add(td, tv, age, since, has=True):
         for backend in ("inmemory", "sqlite"):
-            cases.append(dict(td=str(td), tv=str(tv), age=str(age), since=str(since), has=has, backend=backend,
-                              driver="lib" if (len(cases) // 2) % 3 else "http"))
+            # the age is `age` whole days plus 1 h or 23 h: the snapshot was stored later in the day than the request is
+            # made in at least one of the two, so whole elapsed days - not calendar dates - must be what counts
+            for fh in (1, 23):
+                cases.append(dict(td=str(td), tv=str(tv), age=str(age), since=str(since), has=has, backend=backend,
+                                  driver="lib" if (len(cases) // 4) % 3 else "http", frac_h=fh))
     for td in tds:                                   # the age measure around each days-target
         for age in around(td, AGE_MAX) + [-1, -3, AGE_MAX]:
             add(td, 100, age, 0)
@@ -1595,9 +1634,36 @@ def engine_bin(pid, tier):
                          "cfg": {"days": days, "versions": versions}, "nclients": 3, "client_uuids": uu, "allow": allow, "first_free": 1,
                          "bin": {"path": server, "listen": listen, "args": args, "env": env, "cwd": cwd, "clock_file": clock},
                          "steps": bin_steps(days, versions, allow), "kind": "binary"})
+        # two special configurations: a data directory whose name contains '#', and a listen address that cannot be
+        # bound (its port is held by this process): the server must serve on it anyway or refuse to start
+        import socket as _socket
+        held = _socket.socket()
+        held.bind(("127.0.0.1", 0))
+        held.listen(1)
+        for special in ("hashdir", "busyport"):
+            k = len(cfgs)
+            ports = free_ports(1)
+            listen = ["127.0.0.1:%d" % ports[0]]
+            if special == "busyport":
+                listen.append("127.0.0.1:%d" % held.getsockname()[1])
+            uu = [str(uuidlib.UUID(int=rng.getrandbits(128), version=4)) for _ in range(3)]
+            data_dir = os.path.join(scratch, f"data{k}", "run#1" if special == "hashdir" else "plain", "nested")
+            cwd = os.path.join(scratch, f"cwd{k}")
+            os.makedirs(cwd)
+            clock = os.path.join(scratch, f"clock{k}")
+            open(clock, "w").write("0\n")
+            args = ["--data-dir", data_dir, "--snapshot-days", "2", "--snapshot-versions", "2"]
+            env = {"LISTEN": ",".join(listen)}
+            cfgs.append(dict(k=k, listen=listen, data_dir=data_dir, cwd=cwd, allow=None, days=2, versions=2, args=args, env=env, special=special))
+            jobs.append({"id": f"bin{k}", "run": k + 1, "backend": "sqlite", "driver": "bin", "dir": data_dir, "cfg": {"days": 2, "versions": 2},
+                         "nclients": 3, "client_uuids": uu, "allow": None, "first_free": 1, "start_may_fail": special == "busyport",
+                         "bin": {"path": server, "listen": listen, "args": args, "env": env, "cwd": cwd, "clock_file": clock},
+                         "steps": bin_steps(2, 2, None), "kind": "binary"})
         plan = {"threads": 1, "needs_clock": True, "jobs": jobs}
         t1 = time.time()
-        summ, files = run_harness_sharded(binary, "seq", plan, wd, nproc=min(8, len(jobs)))
+        summ, files = run_harness_sharded(binary, "seq", plan, wd, nproc=min(8, len(jobs)), env={"TCSS_SOCK_TIMEOUT": "4"})
+        held.close()
+        refused_start = [s_.get("id") for s_ in summ["summaries"] if s_.get("start_failed")]
         t2 = time.time()
         chunks = split_trace(files, os.path.join(wd, "chunks"))
         viols, total = judge(chunks)
@@ -1618,8 +1684,12 @@ def engine_bin(pid, tier):
             found.append(dict(sig=sig, what=what[:1800], replay=dict(engine="bin", predicate=pid, config=c)))
         # the data must be in the configured directory and nowhere else
         for c in cfgs:
+            if f"bin{c['k']}" in refused_start:
+                continue            # the server refused to start with an address it cannot bind: nothing was served
             db = os.path.join(c["data_dir"], "taskchampion-sync-server.sqlite3")
-            stray = os.listdir(c["cwd"])
+            top = os.path.join(scratch, f"data{c['k']}")
+            stray = os.listdir(c["cwd"]) + [os.path.join(r_, f_) for r_, _d, fs_ in os.walk(top) for f_ in fs_
+                                             if not os.path.join(r_, f_).startswith(c["data_dir"] + os.sep)]
             if not os.path.exists(db) or stray:
                 found.append(dict(sig=dict(engine="bin", names=["datadir"]), what=f"C17: data directory not honoured: {db} exists={os.path.exists(db)}, files in the working directory: {stray}; args {c['args']} env {c['env']}",
                                   replay=dict(engine="bin", predicate=pid, config=c)))
@@ -1634,7 +1704,8 @@ def engine_bin(pid, tier):
                              "the model constants set from the drawn configuration (urgency C12, allow-list C16, history after restart C01/C07, ...); distinct = "
                              "distinct (targets, allow-list, number of addresses, which options came from the environment)",
                         samples=[{"args": c["args"], "env": c["env"]} for c in cfgs[:3]], events_judged=total,
-                        outcome_counts={f"{op}/{k}": n for (op, k), n in sorted(ops.items())}, listen_forms=dict(addr_forms), ipv6=ipv6)
+                        outcome_counts={f"{op}/{k}": n for (op, k), n in sorted(ops.items())}, listen_forms=dict(addr_forms), ipv6=ipv6,
+                        refused_to_start_with_unbindable_address=refused_start)
         assumptions = ["loopback only; the clock of the child process is shifted by the LD_PRELOAD shim through a file", "state is projected by opening the configured data directory with the SQLite backend"]
         return report(pid, tier, "exploration", found, coverage, assumptions, t0)
     finally:
